@@ -823,6 +823,7 @@ def run(rep, tier, seed, replay=None):
         batches += gen_exhaustive(rng, files, feat, tier)
         batches += gen_synth_files(rng, files, feat, tier)
         batches += gen_histories(rng, files, feat, tier)
+        batches += gen_directed(files, feat)
         batches += gen_cycles(rng, files, feat, tier)
         batches += gen_versions(rng, files, feat, tier)
         batches += [("witness_" + d, WITNESS[d]) for d in ALLDEF]
@@ -1017,6 +1018,28 @@ def gen_synth_files(rng, files, feat, tier):
         files.add_text(nm, "D", "cmc", "* long\n301001 " + " ".join(str(1 + (j % 9)) for j in range(nmem)) + "\n")
         out.append(("synthD_long_line", [("LLD", nm), ("FD", 301001)]))
         feat["d_line_with_%d_members" % nmem] += 1
+    return out
+
+
+# ----------------------------------------------------------------------------------------------- (c') directed histories
+def gen_directed(files, feat):
+    """lookup - change - lookup, for every kind of change: every operation that alters what a descriptor means must be seen by
+    a descriptor that was looked up (and cached) before it.  Uses the witness files: w_m and w_l both define 0 30 030."""
+    b = lambda d, sc, rf, w: dict(desc=d, name="V%d" % d, unit="NUMERIC", scale=sc, ref=rf, width=w)
+    files.add_text("w_m2", "B", "cmc", "* w\n" + "".join(ct.fmt_b_line(b(d, 3, 7, 14)) + "\n" for d in (10010, 30030, 40040)))
+    files.add_text("w_l2", "B", "cmc", "* w\n" + "".join(ct.fmt_b_line(b(d, 4, -7, 9)) + "\n" for d in (2002, 20020)))
+    pres = [[("LMB", "w_m")], [("LLB", "w_m")], [("LMB", "w_m"), ("LLB", "w_l2")], [("MERGE", "w_m", None, None, None)], [("MERGE", None, None, "w_m", None)]]
+    changes = [[("LLB", "w_l")], [("LMB", "w_l")], [("LMB", "w_m2")], [("LLB", "w_m2")],
+               [("MERGE", "w_l", None, None, None)], [("MERGE", None, None, "w_l", None)], [("MERGE", "w_m2", None, "w_l", None)],
+               [("MERGE", "w_m2", None, None, None)], [("MERGE", None, None, "w_m2", None)],
+               [("MERGE", None, "w_d1", None, None)], [("MERGE", None, None, None, "w_d1")], [("LLD", "w_d1")], [("LMD", "w_d2")]]
+    looks = [("FB", 30030), ("FB", 10010), ("FB", 20020), ("FB", 1001), ("FB", 30030)]
+    out = []
+    for pre in pres:
+        for ch in changes:
+            out.append(("history", pre + looks + ch + looks + [("FD", 330030)]))
+            out.append(("history", pre + looks[:1] + ch + looks[:1] + ch[:1] + looks))
+            feat["directed_lookup_change_lookup"] += 2
     return out
 
 
